@@ -210,11 +210,19 @@ func writeMessageFieldUnmarshaller(name string, typ FieldType, w *iohelp.ErrorWr
 		return
 	}
 	if typ.Array != nil {
-		writeLineWithTabs(w, "%RECV = make([]%TYPE, iohelp.ReadUint32(r))", depth, name, typ.Array.goString(settings))
 		if typ.Array.Simple == typeByte {
-			writeLineWithTabs(w, "r.Read(%RECV)", depth, name)
+			writeLineWithTabs(w, "%RECV = iohelp.ReadBytes(r)", depth, name)
 		} else {
-			writeLineWithTabs(w, "for i := range %RECV {", depth, name)
+			// the count comes from the stream: grow as elements really arrive
+			// instead of trusting it with one big allocation
+			nName := depthName("n", depth)
+			writeLineWithTabs(w, nName+" := iohelp.ReadUint32(r)", depth)
+			writeLineWithTabs(w, "%RECV = make([]%TYPE, 0, iohelp.ArrayCap("+nName+"))", depth, name, typ.Array.goString(settings))
+			writeLineWithTabs(w, "for i := uint32(0); i < "+nName+"; i++ {", depth)
+			writeLineWithTabs(w, "\tif r.Err != nil {", depth)
+			writeLineWithTabs(w, "\t\treturn r.Err", depth)
+			writeLineWithTabs(w, "\t}", depth)
+			writeLineWithTabs(w, "\t%RECV = append(%RECV, *new(%TYPE))", depth, name, typ.Array.goString(settings))
 			writeMessageFieldUnmarshaller("("+name+")[i]", *typ.Array, w, settings, depth+1)
 			writeLineWithTabs(w, "}", depth)
 		}
@@ -223,6 +231,9 @@ func writeMessageFieldUnmarshaller(name string, typ FieldType, w *iohelp.ErrorWr
 		writeLineWithTabs(w, lnName+" := iohelp.ReadUint32(r)", depth)
 		writeLineWithTabs(w, "%RECV = make("+typ.Map.goString(settings)+")", depth, name)
 		writeLineWithTabs(w, "for i := uint32(0); i < "+lnName+"; i++ {", depth, name)
+		writeLineWithTabs(w, "\tif r.Err != nil {", depth)
+		writeLineWithTabs(w, "\t\treturn r.Err", depth)
+		writeLineWithTabs(w, "\t}", depth)
 		ln := getLineWithTabs(settings.typeUnmarshallers[typ.Map.Key], depth+1, "&"+depthName("k", depth))
 		w.SafeWrite([]byte(strings.Replace(ln, "=", ":=", 1)))
 		writeMessageFieldUnmarshaller("("+name+")["+depthName("k", depth)+"]", typ.Map.Value, w, settings, depth+1)
